@@ -587,8 +587,12 @@ fn main() {
     // ---------------- 1. exhaustive DFS on small scenarios -----------------
     // (threads, writes per thread)
     let dfs_shapes: &[(usize, usize)] = if ctx.thorough() { &[(2, 1), (2, 2), (3, 1), (2, 3), (3, 2)] } else { &[(2, 1), (2, 2), (3, 1), (2, 3)] };
-    let dfs_rounds = ctx.scale(1, 3, 12);
-    let dfs_cap = ctx.scale(50, 6000, 120_000);
+    // ThreadSanitizer makes every condvar hand-off of the controlled scheduler
+    // 20-50 times slower: under TSan the value is in the real-parallel modes
+    // (stress, storms), so the enumeration is kept to a token size there
+    let tsan = ctx.build == "TSAN";
+    let dfs_rounds = if tsan { 1 } else { ctx.scale(1, 3, 8) };
+    let dfs_cap = if tsan { 300 } else { ctx.scale(50, 6000, 40_000) };
     if !small {
         for round in 0..dfs_rounds {
             for &(t, w) in dfs_shapes {
@@ -682,7 +686,7 @@ fn main() {
 
     // ---------------- 2. random schedules on larger scenarios (hook) / plain threads (Miri) ----
     let rand_rounds = ctx.scale(if ctx.thorough() { 8 } else { 3 }, 12, 80);
-    let rand_execs = ctx.scale(3, 150, 400);
+    let rand_execs = if tsan { 20 } else { ctx.scale(3, 150, 400) };
     for round in 0..rand_rounds {
         let go2 = ctx.time_frac_used() < 0.45;
         for &(t, w) in &[(2usize, 4usize), (3, 4), (4, 3), (3, 8)] {
@@ -871,7 +875,7 @@ fn main() {
         // Miri) can interleave those. Invariants checked here hold for every
         // sequential order, so they can never raise a false alarm.
         let storm_rounds = ctx.scale(0, 4, 20);
-        let storm_ops = ctx.scale(0, 30_000, 200_000);
+        let storm_ops = if tsan { 20_000 } else { ctx.scale(0, 30_000, 200_000) };
         for round in 0..storm_rounds {
             for t in [2usize, 3, 4, 8] {
                 ctx.case("AtomicBitVec", &format!("storm/swap/{}t", t), "swap", |c| {
